@@ -2658,6 +2658,10 @@ func (p *Parser) evaluateSubscript(ctx context) (Expression, error) {
 	}
 
 	if !isSlice {
+		// A single index is evaluated only once, the end-index is derived from the start-index.
+		if !gotRange {
+			endIndex = nil
+		}
 		return StringSubscript{
 			value:      value,
 			startIndex: startIndex,
